@@ -14,7 +14,7 @@ func init() {
 		Technique:   "guarded-sink / ordering reachability on the SSA CFG of unpackVerifySnapshotImport, Import, Reader.Restore and moveFile; argument provenance of the created path; who-may-create-files check",
 		Explanation: "Structural necessary conditions for 'snapshot import and restore cannot escape or corrupt snap data': (R1) unpackVerifySnapshotImport creates files only through writeOneSnapshotFile, reached only for non-directory entries whose name does not contain '../', at a path that is path.Join(dirs.SnapshotsDir, Sprintf(\"%d_%s\", realSetID, <name suffix>)); (R2) Reader.Restore reaches moveFile only across tar success, size equality and digest equality, with size and digest taken from the tee that feeds tar, and tar extracting into the fresh MkdirTemp directory; (R3) the deferred undo is registered before any move, runs RestoreState.Revert whenever the named error is non-nil, and a failed move never returns a nil error; (R4) Import commits the import transaction only after unpack/verify succeeded and registers Cancel before unpacking; (R5) moveFile records every directory it moves aside or creates exactly when the rename succeeded (the data Revert works from). (R6) every temporary unpack directory of Reader.Restore has its removal deferred (on that very directory) before the archive member is unpacked into it.",
 		NotDecided:  "what the external tar does with hostile archives inside the temporary directory; RestoreState.Revert's own correctness; path.Join's cleaning of the attacker-controlled suffix beyond the '../' test.",
-		Run:         func(c *Ctx) { runC32(c); runC32x(c) },
+		Run:         func(c *Ctx) { runC32(c); runC32x(c); runC32z(c) },
 	})
 }
 
